@@ -2,6 +2,7 @@ import Rangers.Basic.Hex
 import Rangers.Basic.Line
 import Rangers.Model.Miner
 import Rangers.Model.MinerReal
+import Rangers.Model.MinerRefundHeight
 /-! Line-protocol driver for C20: runs `Rangers.Miner` with `realCfg` on the op lines the Go harness
     produced and prints the same observation lines. Unparseable lines answer `bad-op`. -/
 namespace Rangers.Drive.C20
@@ -62,6 +63,8 @@ def dump (d : D) : String :=
   "P=" ++ iterStr st .prop ++ " V=" ++ iterStr st .val ++ " G=" ++ ",".intercalate g ++ " A=" ++ ",".intercalate a
     ++ " T=" ++ totalsStr st st.height ++ " T=" ++ totalsStr st (st.height + heightAfterStake)
     ++ " B=" ++ ",".intercalate b ++ " E=" ++ ",".intercalate e ++ " R=" ++ ",".intercalate r
+    ++ " S=" ++ (let vs := validatorsStake realCfg st d.ids
+                 toString vs.1 ++ "/" ++ ",".intercalate (sortStrs (vs.2.map (fun e => toHex e.1 ++ ":" ++ toString e.2))))
     ++ " K=" ++ ",".intercalate (d.ids.map (fun id => match st.pkOf id with | none => "nil" | some k => toHex k))
 
 def readerStr (d : D) : String :=
@@ -73,6 +76,16 @@ def readerStr (d : D) : String :=
     | none => "nil"
     | some m => toString m.stake ++ "/" ++ toString m.applyHeight ++ "/" ++ toString m.typ)
   ",".intercalate cs ++ "|" ++ ",".intercalate ps ++ "|" ++ toString (proposerCount realCfg c h)
+
+/-- dev chain `common.MainNodeContract()`; the harness deploys there a contract that emits 4 logs, the 4th carrying
+    `ORIGIN xor nodeMask` as a 32-byte word (so `generateContractAddress` yields that address). -/
+def mainNodeAddr : Bytes :=
+  [0x27, 0xB0, 0x1A, 0x9E, 0x69, 0x9F, 0x17, 0x76, 0x34, 0xf4, 0x80, 0xCc, 0x21, 0x50, 0x42, 0x50, 0x09, 0xEd, 0xc5, 0xfD]
+def nodeMask : Bytes := List.replicate 20 0x5a
+def xorBytes (a b : Bytes) : Bytes := List.zipWith (· ^^^ ·) a b
+
+def create2Of (st : State) (src : Bytes) : Option Bytes :=
+  if st.isContract mainNodeAddr then some (xorBytes (toAddr src) nodeMask) else none
 
 def badKind? : String → Option BadKind
   | "apply-json" => some .applyJson
@@ -155,6 +168,21 @@ def stepOpt (d : D) (ws : List String) : Option (D × String) :=
     | ["endblock", n] => do
       let n ← n.toNat?
       pure ({ d with st := endBlock d.st n, committed := endBlock d.st n, heights := d.heights ++ [n] }, "ok")
+    | ["rheight", a, b, c, _fork, now, left, typ, ds] => do
+      let now ← now.toNat?; let left ← left.toNat?; let typ ← typ.toNat?
+      let ds ← if ds == "." then some [] else (ds.splitOn ",").mapM String.toNat?
+      if now > maxU64 ∨ left > maxU64 ∨ typ > 255 ∨ ds.any (· > maxU64) then none
+      let fl : RefundFlags := { p012 := a == "1", p004 := b == "1", p011Now := c == "1" }
+      pure (d, toString (refundHeightOf fl now left typ ds))
+    | ["nodecode"] =>
+      pure ({ d with st := { d.st with code := mainNodeAddr :: d.st.code } }, "ok")
+    | ["node", src] => do
+      let src ← ofHex? src
+      let r := runNode realCfg d.st src (create2Of d.st src)
+      pure ({ d with st := r.2 }, r.1)
+    | ["purge", w] => do
+      let w ← csv? w
+      pure ({ d with st := removeUnusedValidator realCfg d.st w }, "ok")
     | ["rewind"] =>
       -- the block being executed is discarded: the account state falls back to the last block end; the public-key
       -- cache is not part of it and keeps what the discarded block put there
